@@ -1,3 +1,73 @@
-From Sonic Require Import Base.Prelude Model.WsStream.
-Theorem C06_placeholder : True. Proof. exact I. Qed.
-Print Assumptions C06_placeholder.
+(* C06 -- message delivery fidelity under fragmentation / segmentation. *)
+From Sonic Require Import Base.Prelude Base.ListLemmas Gen.Consts Gen.Preds Model.WsFrame Spec.FrameParser Model.WsCodec Model.Transport
+  Model.WsStream Proofs.WsCodecProofs Proofs.WsStreamProofs.
+Local Open Scope Z_scope.
+
+(* ReadNext / AsyncReadNext with the frame codec, over ANY segmentation of the inbound bytes by the transport (chunks of
+   any size, cuts inside headers, would-block between them, EOF, errors - and bytes already sitting in the read buffer,
+   e.g. left over from the handshake response): a frame is delivered iff it is, byte for byte, the next frame of the
+   stream; otherwise no byte of the stream is lost.  By induction over the transport's event queue. *)
+Theorem C06_frames_are_the_stream : forall fuel c t async c' t' r,
+  cinv c -> bytes (unread c) -> wevs_ok (tr_in t) -> (length (tr_in t) < fuel)%nat ->
+  ws_read_loop fuel c t async = (c', t', r) ->
+  cinv c' /\ bytes (unread c') /\ wevs_ok (tr_in t') /\ c_max c' = c_max c /\
+  match r with
+  | RdFrame f => parse1 (c_max c) (wstream c t) = PFrame f (wstream c' t')
+  | _ => wstream c' t' = wstream c t
+  end.
+Proof. exact ws_read_loop_spec. Qed.
+Print Assumptions C06_frames_are_the_stream.
+
+(* The blocking and the asynchronous read path deliver the same frame from the same bytes. *)
+Theorem C06_blocking_and_async_agree : forall fuel c t c' t' f,
+  ws_read_loop fuel c t false = (c', t', RdFrame f) -> ws_read_loop fuel c t true = (c', t', RdFrame f).
+Proof. exact read_loop_api_agree. Qed.
+Print Assumptions C06_blocking_and_async_agree.
+
+(* Message reassembly, one frame at a time (NextMessage and asyncNextMessage share msg_frame): control frames go to the
+   control callback and leave the message untouched; a data frame's payload is appended in order (the reported length is
+   the accumulated payload length), the type is the first frame's opcode, FIN ends the message. *)
+Theorem C06_control_between_fragments : forall async s buflen acc cont mtype f,
+  Opcode_IsControl (opcode_of f) = true ->
+  msg_frame async s buflen acc cont mtype f eNone = (s, MMore acc cont mtype [ECtl (opcode_of f) (payload_of f)]).
+Proof.
+  intros. unfold msg_frame. change (negb (eNone =? eNone)) with false. cbv iota. rewrite H. reflexivity.
+Qed.
+Print Assumptions C06_control_between_fragments.
+
+Theorem C06_fragment_appended_in_order : forall async s buflen acc cont mtype f,
+  Opcode_IsControl (opcode_of f) = false ->
+  zlen acc + zlen (payload_of f) <= buflen -> zlen acc + zlen (payload_of f) <= w_max s ->
+  payload_length f = zlen (payload_of f) ->
+  (cont = false -> Opcode_IsContinuation (opcode_of f) = false) ->
+  (cont = true -> Opcode_IsContinuation (opcode_of f) = true) ->
+  let mt := if mtype =? ws_TypeNone then opcode_of f else mtype in
+  let acc' := acc ++ payload_of f in
+  msg_frame async s buflen acc cont mtype f eNone =
+    (s, if is_fin f then MDone [EMsg mt (zlen acc') acc' eNone] else MMore acc' true mt []).
+Proof.
+  intros async s buflen acc cont mtype f Hc Hfit Hmax Hpl Hc0 Hc1 mt acc'.
+  pose proof (zlen_nonneg acc). pose proof (zlen_nonneg (payload_of f)).
+  unfold msg_frame. change (negb (eNone =? eNone)) with false. cbv iota. rewrite Hc. fold mt.
+  assert (Hcp : copy_into buflen acc (payload_of f) = acc') by (unfold copy_into, acc'; rewrite ztake_all by lia; reflexivity).
+  rewrite Hcp.
+  assert (Hl : zlen acc' = zlen acc + zlen (payload_of f)) by (unfold acc'; apply zlen_app).
+  replace ((zlen acc' >? w_max s) || negb (zlen acc' - zlen acc =? payload_length f)) with false by lia.
+  destruct cont.
+  - rewrite (Hc1 eq_refl). cbn [negb]. change (negb (eNone =? eNone)) with false. cbn [orb].
+    destruct (is_fin f); reflexivity.
+  - rewrite (Hc0 eq_refl). cbn [negb]. change (negb (eNone =? eNone)) with false. cbn [orb].
+    destruct (is_fin f); reflexivity.
+Qed.
+Print Assumptions C06_fragment_appended_in_order.
+
+(* Non-vacuity: a text message in three fragments with a ping between them, delivered in awkward pieces, read with the
+   blocking and the asynchronous message API; both deliver (text, "hello!") once, and the ping is answered. *)
+Definition bytes_in : list Z := [1; 2; 104; 101] ++ [137; 1; 9] ++ [0; 3; 108; 108; 111] ++ [128; 1; 33].
+Example C06_demo :
+  let run api := snd (fold_left (fun '(s, out) o => let '(s', evs) := wsstep s o in (s', out ++ evs))
+                        [WIn (InData (ztake 3 bytes_in)); api; WIn (InData (zsub 3 8 bytes_in)); WIn (InData (zdrop 8 bytes_in)); api]
+                        (ws_init 1024 [[1;2;3;4]], [])) in
+  run (WNextMessage 64) = [EMsg 255 0 [] eWouldBlock; ECtl 9 [9]; EMsg 1 6 [104;101;108;108;111;33] eNone] /\
+  run (WAsyncNextMessage 64) = [EPending; ECtl 9 [9]; EMsg 1 6 [104;101;108;108;111;33] eNone; EPending].
+Proof. vm_compute. split; reflexivity. Qed.
